@@ -43,7 +43,7 @@ theorem key_roundtrip_dom : (domainKeys.all fun k => [false, true].all fun ckm =
   decide +kernel
 
 /-- **key_roundtrip_any_uni.** `key_roundtrip` for every `unicode` oracle that agrees with Go on ASCII and on the key
-    codes: 4840 events × 4 (keypad, cursor-key) modes — if the chord is in the xterm legacy domain, the encoder writes
+    codes: 4880 events × 4 (keypad, cursor-key) modes — if the chord is in the xterm legacy domain, the encoder writes
     exactly xterm's report and `decodeKey` of it matches the original key and modifiers. -/
 theorem key_roundtrip_any_uni (u : Uni) (H : AgreeOnKeys u) :
     (domainKeys.all fun k => allModes.all fun md => roundtripOK u k md.1 md.2) = true := by
